@@ -62,9 +62,14 @@ const (
 	c18Inc = iota
 	c18Reset
 	c18Clear
+	c18Push // tinyLFU only: Push(batch), e.k indexes c18Batches (batches of key indices)
 )
 
-var c18OpNames = []string{"increment", "reset", "clear"}
+var c18OpNames = []string{"increment", "reset", "clear", "push"}
+
+// c18Batches: the Get batches handed to tinyLFU.Push (indices into the key alphabet): a key twice,
+// two keys in both orders, a batch of three.
+var c18Batches = [][]uint8{{0, 0}, {1, 1}, {0, 1}, {1, 0}, {0, 1, 0}, {2, 3}, {4, 4}}
 
 type c18Ev struct {
 	op uint8
@@ -72,8 +77,9 @@ type c18Ev struct {
 }
 
 type c18Event struct {
-	Op  string `json:"op"`
-	Key uint64 `json:"key_hash"`
+	Op   string   `json:"op"`
+	Key  uint64   `json:"key_hash"`
+	Keys []uint64 `json:"batch,omitempty"` // push
 }
 
 type c18RowCase struct {
@@ -263,10 +269,11 @@ type c18Snap struct {
 	rows  []byte // the 4 rows concatenated
 	door  []uint64
 	incrs int64
+	extra []byte // raw bytes of private fields the harness does not know by name (empty on the known layout)
 }
 
 func (a *c18Snap) equalState(b *c18Snap) bool {
-	if string(a.rows) != string(b.rows) || a.incrs != b.incrs || len(a.door) != len(b.door) {
+	if string(a.rows) != string(b.rows) || string(a.extra) != string(b.extra) || a.incrs != b.incrs || len(a.door) != len(b.door) {
 		return false
 	}
 	for i := range a.door {
@@ -362,7 +369,9 @@ func (s *c18Sys) observe(sn *c18Snap, est []int64) (p any) {
 		if s.tiny {
 			sn.door = append(sn.door, s.tl.DoorBits()...)
 			sn.incrs, _ = s.tl.Incrs()
-
+			sn.extra = s.tl.Extra(sn.extra[:0])
+		} else {
+			sn.extra = s.sk.Extra(sn.extra[:0])
 		}
 		for i, h := range s.probes {
 			if s.tiny {
@@ -403,6 +412,9 @@ func (s *c18Sys) restore(sn *c18Snap) {
 			}
 		}
 		s.tl.SetDoorElemNum(bits)
+		s.tl.SetExtra(sn.extra)
+	} else {
+		s.sk.SetExtra(sn.extra)
 	}
 }
 
@@ -427,8 +439,19 @@ func (s *c18Sys) do(e c18Ev) (p any) {
 			} else {
 				s.sk.Clear()
 			}
+		case c18Push:
+			s.tl.Push(s.batch(e.k))
 		}
 	})
+}
+
+// batch: the key hashes of batch b (keys beyond the alphabet of this configuration wrap around).
+func (s *c18Sys) batch(b uint8) []uint64 {
+	var out []uint64
+	for _, k := range c18Batches[b] {
+		out = append(out, s.keys[int(k)%len(s.keys)])
+	}
+	return out
 }
 
 // rowsDisagree reports whether some probe hash reads different counter values in different
@@ -453,6 +476,9 @@ func (s *c18Sys) rowsDisagree(rows []byte) bool {
 func (s *c18Sys) evString(e c18Ev) string {
 	if e.op == c18Inc {
 		return fmt.Sprintf("Increment(%#x)", s.keys[e.k])
+	}
+	if e.op == c18Push {
+		return fmt.Sprintf("Push(%#x)", s.batch(e.k))
 	}
 	return c18OpNames[e.op]
 }
@@ -524,6 +550,29 @@ func c18Step(s, aux *c18Sys, n []uint8, e c18Ev, pre *c18Snap, estPre []int64, p
 				n[i] = 0
 			}
 		}
+	case c18Push:
+		// A batch of Gets. Without an aging reset inside the batch (incrs advanced by exactly
+		// the batch length) every key of the batch was recorded once per occurrence and no estimate
+		// may drop. With a reset somewhere in or after the batch the property does not say where it
+		// falls: the model restarts at 0 (the weakest reading: the reset came last).
+		b := c18Batches[e.k]
+		if post.incrs == pre.incrs+int64(len(b)) {
+			for i, h := range s.probes {
+				if estPost[i] < estPre[i] {
+					return &c18Viol{"C18/increment-lowers-estimate", fmt.Sprintf("%s (no reset) lowered the estimate of %#x from %d to %d", s.evString(e), h, estPre[i], estPost[i])}, false
+				}
+			}
+			for _, k := range b {
+				if ki := int(k) % len(s.keys); n[ki] < 15 {
+					n[ki]++
+				}
+			}
+		} else {
+			autoReset = true
+			for i := range n {
+				n[i] = 0
+			}
+		}
 	case c18Reset:
 		for i := range post.rows {
 			for pos := 0; pos < 2; pos++ {
@@ -583,6 +632,9 @@ func (s *c18Sys) makeCase(hist []c18Ev) c18Case {
 		if e.op == c18Inc {
 			ce.Key = s.keys[e.k]
 		}
+		if e.op == c18Push {
+			ce.Keys = s.batch(e.k)
+		}
 		c.Events = append(c.Events, ce)
 	}
 	return c
@@ -596,7 +648,7 @@ func c18CaseString(c c18Case) string {
 	run := 0
 	for i, e := range c.Events {
 		run++
-		if i+1 < len(c.Events) && c.Events[i+1] == e {
+		if i+1 < len(c.Events) && fmt.Sprint(c.Events[i+1]) == fmt.Sprint(e) {
 			continue
 		}
 		if e.Op == "increment" {
@@ -660,6 +712,18 @@ func c18RunCase(c c18Case, verbose bool) (v *c18Viol, at int, final *c18Snap, n 
 			}
 			if !found {
 				ev.Fatalf("C18 replay: key hash %#x not in the alphabet", ce.Key)
+			}
+		}
+		if e.op == c18Push {
+			found = false
+			for b := range c18Batches {
+				if fmt.Sprint(s.batch(uint8(b))) == fmt.Sprint(ce.Keys) {
+					e.k, found = uint8(b), true
+					break
+				}
+			}
+			if !found {
+				ev.Fatalf("C18 replay: batch %#x not in the alphabet", ce.Keys)
 			}
 		}
 		v, auto := c18Step(s, aux, n, e, pre, estPre, post, estPost, tmp, tmpEst)
@@ -758,6 +822,7 @@ func (q *c18Search) encode(sn *c18Snap) []byte {
 		b = binary.LittleEndian.AppendUint64(b, uint64(sn.incrs))
 	}
 	b = append(b, sn.rows...)
+	b = append(b, sn.extra...)
 	q.kb = b
 	return b
 }
@@ -775,7 +840,9 @@ func (q *c18Search) decode(key string, sn *c18Snap) {
 		sn.door = append(sn.door, q.doors[id]...)
 		key = key[12:]
 	}
-	sn.rows = append(sn.rows[:0], key...)
+	nr := 4 * q.s.rowLen
+	sn.rows = append(sn.rows[:0], key[:nr]...)
+	sn.extra = append(sn.extra[:0], key[nr:]...)
 }
 
 func (q *c18Search) history(id int32) []c18Ev {
@@ -864,6 +931,11 @@ func c18Explore(cfg *c18Config, deadline time.Time, maxNodes int) {
 		events = append(events, c18Ev{c18Inc, uint8(k)})
 	}
 	events = append(events, c18Ev{op: c18Reset}, c18Ev{op: c18Clear})
+	if s.tiny {
+		for b := range c18Batches {
+			events = append(events, c18Ev{c18Push, uint8(b)})
+		}
+	}
 	n0 := make([]uint8, len(s.keys))
 	q.insert(pre, n0, -1, c18Ev{}, 0)
 	cfg.Exhaustive = true
@@ -980,6 +1052,13 @@ func c18(tier string, r *ev.Run, replay string) {
 		return
 	}
 
+	if names, plain := ristretto.VerifSketchExtraInfo(); len(names) > 0 {
+		if !plain {
+			ev.Fatalf("C18: cmSketch / tinyLFU / z.Bloom gained private fields that are not plain data (%v): observed states cannot be written back into a live object, the search cannot run", names)
+		}
+		fmt.Printf("C18 note: unknown private fields %v are carried as opaque bytes in every snapshot and state key\n", names)
+		r.Cov["unknown_private_fields_carried_as_opaque_state"] = names
+	}
 	// (a)
 	byteEvals := c18ByteSpace(r)
 	// (c)
@@ -1054,7 +1133,7 @@ func c18(tier string, r *ev.Run, replay string) {
 	}
 	ncs := []int64{2, 3, 4, 5, 8, 16}
 	budget := 40 * time.Second
-	workers := 1
+	workers := min(runtime.NumCPU(), 8)
 	maxNodes := 80_000_000
 	if tier == "thorough" {
 		budget = 9 * time.Minute
